@@ -212,6 +212,27 @@ func checkC11(r *Run) {
 	// H. session.Stop (shared engines)
 	ts, _ := runSessionTypestate(p, true)
 	c13Stop(r, ts)
+	// "every entry the session held has been released exactly once": Stop releases what the fid table holds — an entry
+	// that an operation left bound in a fid it removed from the table, or released but left stored, is released twice or
+	// never. The ownership rules of C13 are necessary conditions here too.
+	{
+		keys := []string{}
+		for k := range ts.viol {
+			keys = append(keys, k)
+		}
+		sort.Strings(keys)
+		nBad := 0
+		for _, k := range keys {
+			if v := ts.viol[k]; strings.HasPrefix(v.rule, "own/") && v.rule != "own/stop" {
+				nBad++
+				r.Bad("own/paths", v.key+" ["+v.rule+"]", v.pos, v.reason)
+			}
+		}
+		if nBad == 0 {
+			r.Ok("own/paths", "session operations: ownership rules hold on every explored path (shared with C13)", token.NoPos, fmt.Sprintf("%d release events, %d create sites interpreted", ts.releaseSites, ts.createSites))
+		}
+		r.Floor("own/paths", ts.releaseSites, 3, "release events interpreted")
+	}
 	// Stop takes the lock of every fid it releases: an operation that returns with a fid lock still held makes
 	// Stop — and with it ServeConn — wait for ever
 	{
